@@ -35,6 +35,28 @@ fn mix(seed: u64, a: u64, b: u64) -> u64 {
     z ^ (z >> 31)
 }
 
+/// MSG_PEEK | MSG_DONTWAIT (Linux)
+fn libc_flags() -> i32 {
+    0x2 | 0x40
+}
+
+/// A loss on loopback is believed only if it repeats: eight quick attempts, and for the first cases that
+/// still look incomplete eight more with pauses (a machine under load drops datagrams in bursts).
+static SLOW_RETRIES_LEFT: std::sync::atomic::AtomicI64 = std::sync::atomic::AtomicI64::new(40);
+fn max_attempts(attempts_so_far: usize) -> bool {
+    if attempts_so_far < 8 {
+        return true;
+    }
+    if attempts_so_far == 8 && SLOW_RETRIES_LEFT.fetch_sub(1, std::sync::atomic::Ordering::SeqCst) <= 0 {
+        return false;
+    }
+    if attempts_so_far >= 16 {
+        return false;
+    }
+    std::thread::sleep(Duration::from_millis(60));
+    true
+}
+
 // --------------------------------------------------------------------------------- Jaeger (C20)
 struct Udp {
     sock: UdpSocket,
@@ -62,15 +84,26 @@ impl Udp {
         });
         Udp { sock, got }
     }
-    /// Everything that has arrived; waits until nothing has come for 4 ms (loopback delivery is
-    /// synchronous with send_to: what was sent is already queued when report() returns).
+    /// Is a datagram waiting in the kernel that the reader thread has not taken yet?  (On a loaded
+    /// machine the reader may not run for many milliseconds; "nothing arrived lately" alone would then end
+    /// a drain early and the rest would turn up in the next one.)
+    fn pending_in_kernel(&self) -> bool {
+        let mut b = [std::mem::MaybeUninit::<u8>::uninit(); 1];
+        socket2::SockRef::from(&self.sock).recv_with_flags(&mut b, libc_flags()).is_ok()
+    }
+    /// Everything that has arrived; waits until nothing has come for 6 ms and nothing is waiting in the
+    /// socket (loopback delivery is synchronous with send_to: what was sent is queued - or dropped for
+    /// want of buffer space - when report() returns).
     fn drain(&self) -> Vec<Vec<u8>> {
         let start = std::time::Instant::now();
         loop {
             std::thread::sleep(Duration::from_millis(1));
+            if self.pending_in_kernel() {
+                continue;
+            }
             let mut g = self.got.lock().unwrap();
-            let quiet = g.1.elapsed() >= Duration::from_millis(4) && start.elapsed() >= Duration::from_millis(4);
-            if quiet {
+            let quiet = g.1.elapsed() >= Duration::from_millis(6) && start.elapsed() >= Duration::from_millis(6);
+            if quiet && !self.pending_in_kernel() {
                 return std::mem::take(&mut g.0);
             }
         }
@@ -185,7 +218,7 @@ fn jaeger_mode(inp: &str, outp: &str) -> std::io::Result<()> {
             obs = json!({"ev":"jaeger","id":case["id"],"classes":classes,"sizes":sizes,"datagrams":dg,"hung":hung,
                          "malformed":bad,"attempts":attempts});
             // UDP on loopback may drop under pressure: an anomaly is believed only if it repeats
-            if flat == want || attempts >= 8 || hung {
+            if flat == want || hung || !max_attempts(attempts) {
                 break;
             }
         }
@@ -463,7 +496,9 @@ fn report_mode(inp: &str, outp: &str, seed: u64) -> std::io::Result<()> {
         // ---- Jaeger
         let mut jr = fastrace_jaeger::JaegerReporter::new(uaddr, "svc-j").unwrap();
         let mut best: Option<Value> = None;
-        for _ in 0..8 {
+        let mut attempts = 0;
+        loop {
+            attempts += 1;
             jr.report(recs.clone());
             let dgs = udp.drain();
             let mut msgs = Vec::new();
@@ -476,8 +511,8 @@ fn report_mode(inp: &str, outp: &str, seed: u64) -> std::io::Result<()> {
             }
             let o = jaeger_out(&msgs);
             let complete = o["spans"].as_array().map(|a| a.len()).unwrap_or(0) == recs.len();
-            best = Some(json!({"ev":"report","kind":"jaeger","id":case["id"],"in":input,"out":o,"error":err,"datagrams":dgs.len()}));
-            if complete {
+            best = Some(json!({"ev":"report","kind":"jaeger","id":case["id"],"in":input,"out":o,"error":err,"datagrams":dgs.len(),"attempts":attempts}));
+            if complete || !max_attempts(attempts) {
                 break;
             }
         }
